@@ -29,6 +29,9 @@ where
     async fn read_bytes(&mut self, len: usize) -> io::Result<Bytes> {
         let mut buf = vec![0; len];
         self.inner.read_exact(&mut buf).await?;
+        #[cfg(kani)]
+        return Ok(crate::verif_shim::bytes_from_vec(buf));
+        #[cfg(not(kani))]
         Ok(buf.into())
     }
 
@@ -123,6 +126,9 @@ where
     fn read_bytes(&mut self, len: usize) -> io::Result<Bytes> {
         let mut buf = vec![0; len];
         self.inner.read_exact(&mut buf)?;
+        #[cfg(kani)]
+        return Ok(crate::verif_shim::bytes_from_vec(buf));
+        #[cfg(not(kani))]
         Ok(buf.into())
     }
 
